@@ -21,6 +21,16 @@ class InjectedTargetError(RuntimeError):
     pass
 
 
+class InjectedTargetError2(Exception):
+    """an exception type whose constructor needs two positional arguments
+    (like subprocess.CalledProcessError): it cannot be re-created from a message"""
+
+    def __init__(self, code, detail):
+        super().__init__(code, detail)
+        self.code = code
+        self.detail = detail
+
+
 class NonProgress(Exception):
     """Raised by the probe when the model-proven bound on consecutive
     non-progress loop iterations is exceeded (turns a hang into a verdict)."""
@@ -85,6 +95,9 @@ class Recorder:
         if fk == "exception":
             rec["fault"] = fk
             raise InjectedTargetError("injected target failure at call %d" % n)
+        if fk == "exception2":
+            rec["fault"] = fk
+            raise InjectedTargetError2(n, "injected target failure")
         y = self.f0(xc)
         sd = None
         if mode != "det":
